@@ -17,6 +17,12 @@ theorem setCoeffs_frame (a a' : Arr) (c : CoeffArg) (h : setCoeffs a c = .ok a')
   | seq cs =>
     simp only [setCoeffs] at h
     split at h <;> (injection h with h; subst h; simp)
+  | notFlat n =>
+    simp only [setCoeffs] at h
+    split at h
+    · injection h with h; subst h; simp
+    · simp at h
+  | badElems c => simp [setCoeffs] at h
 
 theorem setOrigin_frame (a a' : Arr) (o : OriginArg) (h : setOrigin a o = .ok a') :
     a'.raw = a.raw ∧ a'.shape = a.shape ∧ a'.dtype = a.dtype ∧ a'.coeffs = a.coeffs := by
